@@ -5,6 +5,7 @@ import (
 	"fmt"
 	"math"
 	"reflect"
+	"unicode/utf8"
 
 	structform "github.com/elastic/go-structform"
 	"github.com/elastic/go-structform/cborl"
@@ -162,6 +163,11 @@ func checkC10(ci any, info *CaseInfo) string {
 		}
 		if ia != "" || ib != "" {
 			return fmt.Sprintf("%s: after the complete document: extended: %q expanded: %q", desc, ia, ib)
+		}
+		if c.Consumer == "json" && (!utf8.Valid(da) || !utf8.Valid(db)) {
+			// the reference decoder is lenient about invalid UTF-8 (it replaces it,
+			// like the sanitising rule of the comparison): a JSON text is UTF-8
+			return fmt.Sprintf("%s: the output is not valid UTF-8, hence not a JSON text: extended %q, expansion %q", desc, trunc(da), trunc(db))
 		}
 		va, err := refDecodeOne(c.Consumer, da)
 		if err != nil {
